@@ -17,6 +17,8 @@ import (
 	"time"
 
 	"verif/vk"
+
+	"github.com/lianxiangcloud/linkchain/types"
 )
 
 type opKind int
@@ -78,6 +80,10 @@ func e1configs(quick bool) []e1cfg {
 			{name: "flat", trie: false, pool: append(append([]string{}, medium...), "s1a", "s1m"), maxList: 2, depth: 2}, // every confidential spend kind: ring 1, MLSAG, to account, two inputs, duplicate input
 			{name: "flat/deep", trie: false, pool: small, maxList: 2, depth: 3},
 			kindsCfg("flat/kinds", false, 2),
+			failCfg("flat/failing", false, 3),
+			// nonces live in the account state, whose two storage modes are different code: both per-kind searches also in trie mode
+			kindsCfg("trie/kinds", true, 2),
+			failCfg("trie/failing", true, 2),
 		}
 	}
 	return []e1cfg{
@@ -89,6 +95,8 @@ func e1configs(quick bool) []e1cfg {
 		{name: "trie/deeper", trie: true, pool: small, maxList: 2, depth: 4},
 		kindsCfg("flat/kinds", false, 3),
 		kindsCfg("trie/kinds", true, 2),
+		failCfg("flat/failing", false, 4),
+		failCfg("trie/failing", true, 3),
 	}
 }
 
@@ -128,6 +136,22 @@ func (c *e1cfg) ops() []e1op {
 	return out
 }
 
+// failCfg: transactions whose execution FAILS consume their nonce too. For every failing letter f: [f], [f,f] (replay in the
+// block), [f,d1] (the sender's next nonce right after the failure: must be fine); the cures [cureCoin], [cureTok]; the
+// controls [dv] (D's affordable nonce-0 transfer: a re-use after any failing letter of D) and [d1]; AddTx(f), BlockFromMempool,
+// Restart. Depth 3 holds [f];[cure];[f] and [f];Restart;[f].
+func failCfg(name string, trie bool, depth int) e1cfg {
+	c := e1cfg{name: name, trie: trie, depth: depth, setup: failSetup, pool: append([]string{}, failLetters...)}
+	for _, f := range failLetters {
+		c.blocks = append(c.blocks, []string{f}, []string{f, f})
+		if f != "g0" {
+			c.blocks = append(c.blocks, []string{f, "d1"})
+		}
+	}
+	c.blocks = append(c.blocks, []string{"cureCoin"}, []string{"cureTok"}, []string{"dv"}, []string{"d1"})
+	return c
+}
+
 // result of executing one history
 type e1out struct {
 	Key      string      `json:"key"`  // canonical state ("" = terminal)
@@ -136,6 +160,7 @@ type e1out struct {
 	Class    string      `json:"class"`
 	Rejected bool        `json:"rejected"`  // last op offered a re-use and it was refused
 	ValidRej bool        `json:"valid_rej"` // last op offered an executable block and it was refused (harness sanity)
+	Failed   int         `json:"failed"`    // last op committed a block with this many failed receipts
 }
 
 func lookup(cat *catalogue, names []string) []*txInfo {
@@ -242,6 +267,13 @@ func execHistory1(cat *catalogue, cfg *e1cfg, ops []e1op, hist []int) (out e1out
 			if vb != nil {
 				cOK, _ := w.commitEverywhere(vb, vparts)
 				committed = true
+				if last && cOK {
+					for _, rc := range w.c.Receipts(w.c.Height()) {
+						if rc.Status == types.ReceiptStatusFailed {
+							out.Failed++
+						}
+					}
+				}
 				if !cOK {
 					where += "+node-under-test-refuses"
 				}
@@ -412,6 +444,7 @@ func runE1(r *vk.Run, scratch string, budget time.Duration) *e1stats {
 		}
 		var shadows []shadow
 		mergeChecks := 0
+		failedCommits := 0 // blocks committed by the last op that carry a failed receipt
 		closed := false
 		for depth := 1; depth <= cfg.depth; depth++ {
 			if len(frontier) == 0 {
@@ -509,6 +542,9 @@ func runE1(r *vk.Run, scratch string, budget time.Duration) *e1stats {
 					if sc.Out.Last == "pooled" {
 						st.poolAdds++
 					}
+					if sc.Out.Failed > 0 {
+						failedCommits++
+					}
 					for _, v := range sc.Out.Viol {
 						st.violations++
 						r.Violation(v[0], v[1], map[string]interface{}{"engine": "E1", "search": cfg.name, "ops": opNames(h), "op_ids": h})
@@ -552,7 +588,11 @@ func runE1(r *vk.Run, scratch string, budget time.Duration) *e1stats {
 		st.transitions += trans
 		st.mergeChecks += mergeChecks
 		st.perSearch = append(st.perSearch, map[string]interface{}{"search": cfg.name, "alphabet": len(ops), "depth_completed": depthDone, "depth_bound": cfg.depth,
-			"states": states, "transitions": trans, "new_states_per_depth": perDepth, "state_space_closed": closed, "state_key_adequacy_checks": mergeChecks})
+			"states": states, "transitions": trans, "new_states_per_depth": perDepth, "state_space_closed": closed, "state_key_adequacy_checks": mergeChecks,
+			"blocks_committed_with_failed_receipts": failedCommits})
+		if cfg.setup != nil && strings.Contains(cfg.name, "failing") && failedCommits == 0 && st.violations == 0 && !capped {
+			vk.Fatalf("e1 %s: no committed block carries a failed receipt: the failing letters do not fail", cfg.name)
+		}
 		fmt.Printf("E1 %-12s alphabet=%d depth=%d states=%d transitions=%d per-depth=%v closed=%v key-checks=%d\n", cfg.name, len(ops), depthDone, states, trans, perDepth, closed, mergeChecks)
 	}
 	return st
